@@ -271,6 +271,14 @@ func (env *Env) ident(name string) Val {
 	if v, ok := env.vars[name]; ok {
 		return v
 	}
+	switch name {
+	case "calleefailed":
+		// activation-local ghost: some call made so far by the function under verification returned a non-nil error
+		return Val{T: tBool, C: []Term{env.cur().get(tr.e, "D$calleefailed", SBool)}}
+	case "lastminted":
+		// activation-local ghost: the value the most recent fmt.Errorf / errors.New of this activation returned
+		return Val{T: types.Universe.Lookup("error").Type(), C: []Term{env.cur().get(tr.e, "L$lastminted", SInt)}}
+	}
 	if env.contract != nil {
 		for _, l := range env.contract.Lets {
 			if l.Name == name && !env.letBusy[name] {
